@@ -8,3 +8,23 @@ package models
 //@   assumed
 //@   modifies nothing
 //@   ensures nil_iff_err: (result1 == nil) == (result0 != nil)
+
+// ---- C08.4: the shard hash is FNV-64a of the series key bytes and of nothing else ----
+
+//@ smt (declare-fun fnv_fold_u64 ((_ BitVec 64) (Array Int (_ BitVec 8)) Int Int) (_ BitVec 64))
+//@ smt (assert (forall ((h (_ BitVec 64)) (a (Array Int (_ BitVec 8))) (o Int)) (! (= (fnv_fold_u64 h a o 0) h) :pattern ((fnv_fold_u64 h a o 0)))))
+//@ smt (assert (forall ((h (_ BitVec 64)) (a (Array Int (_ BitVec 8))) (o Int) (k Int)) (! (=> (>= k 1) (= (fnv_fold_u64 h a o k) (bvmul (bvxor (fnv_fold_u64 h a o (- k 1)) ((_ zero_extend 56) (select a (+ o (- k 1))))) #x00000100000001b3))) :pattern ((fnv_fold_u64 h a o k)))))
+
+//@ func (*InlineFNV64a).Write
+//@   props C08
+//@   arith bv
+//@   loop 1 invariant folded: hash == fnv_fold_u64(old(uint64(*s)), row(data), off(data), rangeindex+1)
+//@   ensures fnv: uint64(*s) == fnv_fold_u64(old(uint64(*s)), row(data), off(data), len(data))
+//@   ensures all_consumed: result0 == len(data) && result1 == nil
+//@   modifies *s
+
+//@ func (*point).HashID
+//@   props C08
+//@   arith bv
+//@   ensures key_only: result == fnv_fold_u64(uint64(14695981039346656037), row(p.key), off(p.key), len(p.key))
+//@   modifies nothing
